@@ -288,6 +288,24 @@ def r6_token_flags(ctx, pdb):
             r.violation('OSToken/DBToken', m, 'file store sets %s clears %s; SQLite store sets %s clears %s' % (sorted(a[0]), sorted(a[1]), sorted(b[0]), sorted(b[1])), file=fb[0]['file'], line=fb[0]['line'])
 
 
+def r9_attribute_iteration(ctx, pdb):
+    """C_CopyObject walks the source with OSObject::nextAttributeType(); every store must implement the walk: the answer has to depend on the argument and on what is stored."""
+    r = ctx.rule('C20.R9', 'every OSObject implementation implements the attribute iteration C_CopyObject relies on (no constant stub)', floor=3, engine='E7')
+    for cls in sorted(c for c in pdb.subclasses('OSObject') if pdb.fns(c + '::nextAttributeType')):
+        f = pdb.fn(cls + '::nextAttributeType')
+        ctx.analysed(f)
+        pv = f['params'][0].get('var')
+        uses_arg = pv is not None and any(x.get('k') == 'Var' and x['name'] == pv['name'] for x in walk(f['body']))
+        rets = [n.get('e') for n in walk(f['body']) if n.get('k') == 'Return' and n.get('e') is not None]
+        nonconst = [e for e in rets if e.get('k') not in ('Lit', 'Null') and not (e.get('k') == 'Var' and e.get('kind') == 'enum')]
+        site = '%s::nextAttributeType' % cls
+        if not uses_arg or not nonconst:
+            r.violation(cls, site, 'the function %s: C_CopyObject copies only the first attribute of a %s, the copy comes back with CKR_OK and without the attributes of its source, while the other stores copy them all'
+                        % ('ignores its argument' if not uses_arg else 'returns constants only', cls), file=f['file'], line=f['line'])
+        else:
+            r.ok(cls, site, 'answer computed from the argument and the stored attributes', file=f['file'], line=f['line'])
+
+
 def run(ctx):
     po = ctx.prog('ossl-file')
     pb = ctx.prog('botan-file')
@@ -301,9 +319,12 @@ def run(ctx):
     c13.r3_cipher_tables(ctx, po, pb, rule_id='C20.R7')
     c05.r1d_map_accounting(ctx, po, rule_id='C20.R8')
     r6_token_flags(ctx, pdb)
+    r9_attribute_iteration(ctx, pdb)
 
 
 MUTANTS = [
+    dict(name='dbobject-nextattributetype-stub', rule='C20.R9', config='ossl-db', file='src/lib/object_store/DBObject.cpp', after='CK_ATTRIBUTE_TYPE DBObject::nextAttributeType(',
+         old='\treturn result.getULongLong(1);', new='\t(void) type;\n\treturn CKA_CLASS;'),
     dict(name='botan-rsa-drops-sha512-pss', rule='C20.R1', config='botan-file', file='src/lib/crypto/BotanRSA.cpp', after='bool BotanRSA::signInit(',
          old='\t\tcase AsymMech::RSA_SHA512_PKCS_PSS:\n', new='\t\tcase AsymMech::Unknown:\n'),
     dict(name='attributekind-loses-label', rule='C20.R3', config='ossl-db', file='src/lib/object_store/DBObject.cpp', old='\tcase CKA_LABEL: return akBinary;\n', new=''),
